@@ -1322,58 +1322,58 @@ pub(crate) mod verif_js_op {
         body_str_to_number_words();
     }
 //@GENERATED-S2N
-    //@ob name=C07.str_to_number.num.0 harness=k_c07_s2n_num_0 props=C07,C09,C10,C01 tier=quick strength=bounded bound="every string of exactly 0 characters over the alphabet {0 1 9 . - + e E space tab x a}" fns=js_op::str_to_number stubs=1 replay=generic timeout=300
+    //@ob name=C07.str_to_number.num.0 harness=k_c07_s2n_num_0 props=C07,C09,C10 tier=quick strength=bounded bound="every string of exactly 0 characters over the alphabet {0 1 9 . - + e E space tab x a}" fns=js_op::str_to_number stubs=1 replay=generic timeout=300
     //@ desc="str_to_number(s) == ECMAScript StringToNumber(s): surrounding whitespace ignored, \"\" is 0, only `Infinity` spelled that way, 0x/0o/0b literals honoured (unsigned), decimal literals by from_str (assumed contract), anything else non-numeric"
     s2n_harness!(k_c07_s2n_num_0, 0, ALPHA_NUM);
-    //@ob name=C07.str_to_number.num.1 harness=k_c07_s2n_num_1 props=C07,C09,C10,C01 tier=quick strength=bounded bound="every string of exactly 1 characters over the alphabet {0 1 9 . - + e E space tab x a}" fns=js_op::str_to_number stubs=1 replay=generic timeout=300
+    //@ob name=C07.str_to_number.num.1 harness=k_c07_s2n_num_1 props=C07,C09,C10 tier=quick strength=bounded bound="every string of exactly 1 characters over the alphabet {0 1 9 . - + e E space tab x a}" fns=js_op::str_to_number stubs=1 replay=generic timeout=300
     //@ desc="str_to_number(s) == ECMAScript StringToNumber(s): surrounding whitespace ignored, \"\" is 0, only `Infinity` spelled that way, 0x/0o/0b literals honoured (unsigned), decimal literals by from_str (assumed contract), anything else non-numeric"
     s2n_harness!(k_c07_s2n_num_1, 1, ALPHA_NUM);
-    //@ob name=C07.str_to_number.num.2 harness=k_c07_s2n_num_2 props=C07,C09,C10,C01 tier=quick strength=bounded bound="every string of exactly 2 characters over the alphabet {0 1 9 . - + e E space tab x a}" fns=js_op::str_to_number stubs=1 replay=generic timeout=300
+    //@ob name=C07.str_to_number.num.2 harness=k_c07_s2n_num_2 props=C07,C09,C10 tier=quick strength=bounded bound="every string of exactly 2 characters over the alphabet {0 1 9 . - + e E space tab x a}" fns=js_op::str_to_number stubs=1 replay=generic timeout=300
     //@ desc="str_to_number(s) == ECMAScript StringToNumber(s): surrounding whitespace ignored, \"\" is 0, only `Infinity` spelled that way, 0x/0o/0b literals honoured (unsigned), decimal literals by from_str (assumed contract), anything else non-numeric"
     s2n_harness!(k_c07_s2n_num_2, 2, ALPHA_NUM);
-    //@ob name=C07.str_to_number.num.3 harness=k_c07_s2n_num_3 props=C07,C09,C10,C01 tier=thorough strength=bounded bound="every string of exactly 3 characters over the alphabet {0 1 9 . - + e E space tab x a}" fns=js_op::str_to_number stubs=1 replay=generic timeout=300
+    //@ob name=C07.str_to_number.num.3 harness=k_c07_s2n_num_3 props=C07,C09,C10 tier=thorough strength=bounded bound="every string of exactly 3 characters over the alphabet {0 1 9 . - + e E space tab x a}" fns=js_op::str_to_number stubs=1 replay=generic timeout=300
     //@ desc="str_to_number(s) == ECMAScript StringToNumber(s): surrounding whitespace ignored, \"\" is 0, only `Infinity` spelled that way, 0x/0o/0b literals honoured (unsigned), decimal literals by from_str (assumed contract), anything else non-numeric"
     s2n_harness!(k_c07_s2n_num_3, 3, ALPHA_NUM);
-    //@ob name=C07.str_to_number.num.4 harness=k_c07_s2n_num_4 props=C07,C09,C10,C01 tier=thorough strength=bounded bound="every string of exactly 4 characters over the alphabet {0 1 9 . - + e E space tab x a}" fns=js_op::str_to_number stubs=1 replay=generic timeout=300
+    //@ob name=C07.str_to_number.num.4 harness=k_c07_s2n_num_4 props=C07,C09,C10 tier=thorough strength=bounded bound="every string of exactly 4 characters over the alphabet {0 1 9 . - + e E space tab x a}" fns=js_op::str_to_number stubs=1 replay=generic timeout=300
     //@ desc="str_to_number(s) == ECMAScript StringToNumber(s): surrounding whitespace ignored, \"\" is 0, only `Infinity` spelled that way, 0x/0o/0b literals honoured (unsigned), decimal literals by from_str (assumed contract), anything else non-numeric"
     s2n_harness!(k_c07_s2n_num_4, 4, ALPHA_NUM);
-    //@ob name=C07.str_to_number.num.5 harness=k_c07_s2n_num_5 props=C07,C09,C10,C01 tier=thorough strength=bounded bound="every string of exactly 5 characters over the alphabet {0 1 9 . - + e E space tab x a}" fns=js_op::str_to_number stubs=1 replay=generic timeout=300
+    //@ob name=C07.str_to_number.num.5 harness=k_c07_s2n_num_5 props=C07,C09,C10 tier=thorough strength=bounded bound="every string of exactly 5 characters over the alphabet {0 1 9 . - + e E space tab x a}" fns=js_op::str_to_number stubs=1 replay=generic timeout=300
     //@ desc="str_to_number(s) == ECMAScript StringToNumber(s): surrounding whitespace ignored, \"\" is 0, only `Infinity` spelled that way, 0x/0o/0b literals honoured (unsigned), decimal literals by from_str (assumed contract), anything else non-numeric"
     s2n_harness!(k_c07_s2n_num_5, 5, ALPHA_NUM);
-    //@ob name=C07.str_to_number.word.0 harness=k_c07_s2n_word_0 props=C07,C09,C10,C01 tier=quick strength=bounded bound="every string of exactly 0 characters over the alphabet {i n f I N a t y 1 - space A}" fns=js_op::str_to_number stubs=1 replay=generic timeout=300
+    //@ob name=C07.str_to_number.word.0 harness=k_c07_s2n_word_0 props=C07,C09,C10 tier=quick strength=bounded bound="every string of exactly 0 characters over the alphabet {i n f I N a t y 1 - space A}" fns=js_op::str_to_number stubs=1 replay=generic timeout=300
     //@ desc="str_to_number(s) == ECMAScript StringToNumber(s): surrounding whitespace ignored, \"\" is 0, only `Infinity` spelled that way, 0x/0o/0b literals honoured (unsigned), decimal literals by from_str (assumed contract), anything else non-numeric"
     s2n_harness!(k_c07_s2n_word_0, 0, ALPHA_WORD);
-    //@ob name=C07.str_to_number.word.1 harness=k_c07_s2n_word_1 props=C07,C09,C10,C01 tier=quick strength=bounded bound="every string of exactly 1 characters over the alphabet {i n f I N a t y 1 - space A}" fns=js_op::str_to_number stubs=1 replay=generic timeout=300
+    //@ob name=C07.str_to_number.word.1 harness=k_c07_s2n_word_1 props=C07,C09,C10 tier=quick strength=bounded bound="every string of exactly 1 characters over the alphabet {i n f I N a t y 1 - space A}" fns=js_op::str_to_number stubs=1 replay=generic timeout=300
     //@ desc="str_to_number(s) == ECMAScript StringToNumber(s): surrounding whitespace ignored, \"\" is 0, only `Infinity` spelled that way, 0x/0o/0b literals honoured (unsigned), decimal literals by from_str (assumed contract), anything else non-numeric"
     s2n_harness!(k_c07_s2n_word_1, 1, ALPHA_WORD);
-    //@ob name=C07.str_to_number.word.2 harness=k_c07_s2n_word_2 props=C07,C09,C10,C01 tier=quick strength=bounded bound="every string of exactly 2 characters over the alphabet {i n f I N a t y 1 - space A}" fns=js_op::str_to_number stubs=1 replay=generic timeout=300
+    //@ob name=C07.str_to_number.word.2 harness=k_c07_s2n_word_2 props=C07,C09,C10 tier=quick strength=bounded bound="every string of exactly 2 characters over the alphabet {i n f I N a t y 1 - space A}" fns=js_op::str_to_number stubs=1 replay=generic timeout=300
     //@ desc="str_to_number(s) == ECMAScript StringToNumber(s): surrounding whitespace ignored, \"\" is 0, only `Infinity` spelled that way, 0x/0o/0b literals honoured (unsigned), decimal literals by from_str (assumed contract), anything else non-numeric"
     s2n_harness!(k_c07_s2n_word_2, 2, ALPHA_WORD);
-    //@ob name=C07.str_to_number.word.3 harness=k_c07_s2n_word_3 props=C07,C09,C10,C01 tier=thorough strength=bounded bound="every string of exactly 3 characters over the alphabet {i n f I N a t y 1 - space A}" fns=js_op::str_to_number stubs=1 replay=generic timeout=300
+    //@ob name=C07.str_to_number.word.3 harness=k_c07_s2n_word_3 props=C07,C09,C10 tier=thorough strength=bounded bound="every string of exactly 3 characters over the alphabet {i n f I N a t y 1 - space A}" fns=js_op::str_to_number stubs=1 replay=generic timeout=300
     //@ desc="str_to_number(s) == ECMAScript StringToNumber(s): surrounding whitespace ignored, \"\" is 0, only `Infinity` spelled that way, 0x/0o/0b literals honoured (unsigned), decimal literals by from_str (assumed contract), anything else non-numeric"
     s2n_harness!(k_c07_s2n_word_3, 3, ALPHA_WORD);
-    //@ob name=C07.str_to_number.word.4 harness=k_c07_s2n_word_4 props=C07,C09,C10,C01 tier=thorough strength=bounded bound="every string of exactly 4 characters over the alphabet {i n f I N a t y 1 - space A}" fns=js_op::str_to_number stubs=1 replay=generic timeout=300
+    //@ob name=C07.str_to_number.word.4 harness=k_c07_s2n_word_4 props=C07,C09,C10 tier=thorough strength=bounded bound="every string of exactly 4 characters over the alphabet {i n f I N a t y 1 - space A}" fns=js_op::str_to_number stubs=1 replay=generic timeout=300
     //@ desc="str_to_number(s) == ECMAScript StringToNumber(s): surrounding whitespace ignored, \"\" is 0, only `Infinity` spelled that way, 0x/0o/0b literals honoured (unsigned), decimal literals by from_str (assumed contract), anything else non-numeric"
     s2n_harness!(k_c07_s2n_word_4, 4, ALPHA_WORD);
-    //@ob name=C07.str_to_number.word.5 harness=k_c07_s2n_word_5 props=C07,C09,C10,C01 tier=thorough strength=bounded bound="every string of exactly 5 characters over the alphabet {i n f I N a t y 1 - space A}" fns=js_op::str_to_number stubs=1 replay=generic timeout=300
+    //@ob name=C07.str_to_number.word.5 harness=k_c07_s2n_word_5 props=C07,C09,C10 tier=thorough strength=bounded bound="every string of exactly 5 characters over the alphabet {i n f I N a t y 1 - space A}" fns=js_op::str_to_number stubs=1 replay=generic timeout=300
     //@ desc="str_to_number(s) == ECMAScript StringToNumber(s): surrounding whitespace ignored, \"\" is 0, only `Infinity` spelled that way, 0x/0o/0b literals honoured (unsigned), decimal literals by from_str (assumed contract), anything else non-numeric"
     s2n_harness!(k_c07_s2n_word_5, 5, ALPHA_WORD);
-    //@ob name=C07.str_to_number.radix.0 harness=k_c07_s2n_radix_0 props=C07,C09,C10,C01 tier=quick strength=bounded bound="every string of exactly 0 characters over the alphabet {0 x X b o 1 7 f - g}" fns=js_op::str_to_number stubs=1 replay=generic timeout=300
+    //@ob name=C07.str_to_number.radix.0 harness=k_c07_s2n_radix_0 props=C07,C09,C10 tier=quick strength=bounded bound="every string of exactly 0 characters over the alphabet {0 x X b o 1 7 f - g}" fns=js_op::str_to_number stubs=1 replay=generic timeout=300
     //@ desc="str_to_number(s) == ECMAScript StringToNumber(s): surrounding whitespace ignored, \"\" is 0, only `Infinity` spelled that way, 0x/0o/0b literals honoured (unsigned), decimal literals by from_str (assumed contract), anything else non-numeric"
     s2n_harness!(k_c07_s2n_radix_0, 0, ALPHA_RADIX);
-    //@ob name=C07.str_to_number.radix.1 harness=k_c07_s2n_radix_1 props=C07,C09,C10,C01 tier=quick strength=bounded bound="every string of exactly 1 characters over the alphabet {0 x X b o 1 7 f - g}" fns=js_op::str_to_number stubs=1 replay=generic timeout=300
+    //@ob name=C07.str_to_number.radix.1 harness=k_c07_s2n_radix_1 props=C07,C09,C10 tier=quick strength=bounded bound="every string of exactly 1 characters over the alphabet {0 x X b o 1 7 f - g}" fns=js_op::str_to_number stubs=1 replay=generic timeout=300
     //@ desc="str_to_number(s) == ECMAScript StringToNumber(s): surrounding whitespace ignored, \"\" is 0, only `Infinity` spelled that way, 0x/0o/0b literals honoured (unsigned), decimal literals by from_str (assumed contract), anything else non-numeric"
     s2n_harness!(k_c07_s2n_radix_1, 1, ALPHA_RADIX);
-    //@ob name=C07.str_to_number.radix.2 harness=k_c07_s2n_radix_2 props=C07,C09,C10,C01 tier=quick strength=bounded bound="every string of exactly 2 characters over the alphabet {0 x X b o 1 7 f - g}" fns=js_op::str_to_number stubs=1 replay=generic timeout=300
+    //@ob name=C07.str_to_number.radix.2 harness=k_c07_s2n_radix_2 props=C07,C09,C10 tier=quick strength=bounded bound="every string of exactly 2 characters over the alphabet {0 x X b o 1 7 f - g}" fns=js_op::str_to_number stubs=1 replay=generic timeout=300
     //@ desc="str_to_number(s) == ECMAScript StringToNumber(s): surrounding whitespace ignored, \"\" is 0, only `Infinity` spelled that way, 0x/0o/0b literals honoured (unsigned), decimal literals by from_str (assumed contract), anything else non-numeric"
     s2n_harness!(k_c07_s2n_radix_2, 2, ALPHA_RADIX);
-    //@ob name=C07.str_to_number.radix.3 harness=k_c07_s2n_radix_3 props=C07,C09,C10,C01 tier=thorough strength=bounded bound="every string of exactly 3 characters over the alphabet {0 x X b o 1 7 f - g}" fns=js_op::str_to_number stubs=1 replay=generic timeout=300
+    //@ob name=C07.str_to_number.radix.3 harness=k_c07_s2n_radix_3 props=C07,C09,C10 tier=thorough strength=bounded bound="every string of exactly 3 characters over the alphabet {0 x X b o 1 7 f - g}" fns=js_op::str_to_number stubs=1 replay=generic timeout=300
     //@ desc="str_to_number(s) == ECMAScript StringToNumber(s): surrounding whitespace ignored, \"\" is 0, only `Infinity` spelled that way, 0x/0o/0b literals honoured (unsigned), decimal literals by from_str (assumed contract), anything else non-numeric"
     s2n_harness!(k_c07_s2n_radix_3, 3, ALPHA_RADIX);
-    //@ob name=C07.str_to_number.radix.4 harness=k_c07_s2n_radix_4 props=C07,C09,C10,C01 tier=thorough strength=bounded bound="every string of exactly 4 characters over the alphabet {0 x X b o 1 7 f - g}" fns=js_op::str_to_number stubs=1 replay=generic timeout=300
+    //@ob name=C07.str_to_number.radix.4 harness=k_c07_s2n_radix_4 props=C07,C09,C10 tier=thorough strength=bounded bound="every string of exactly 4 characters over the alphabet {0 x X b o 1 7 f - g}" fns=js_op::str_to_number stubs=1 replay=generic timeout=300
     //@ desc="str_to_number(s) == ECMAScript StringToNumber(s): surrounding whitespace ignored, \"\" is 0, only `Infinity` spelled that way, 0x/0o/0b literals honoured (unsigned), decimal literals by from_str (assumed contract), anything else non-numeric"
     s2n_harness!(k_c07_s2n_radix_4, 4, ALPHA_RADIX);
-    //@ob name=C07.str_to_number.radix.5 harness=k_c07_s2n_radix_5 props=C07,C09,C10,C01 tier=thorough strength=bounded bound="every string of exactly 5 characters over the alphabet {0 x X b o 1 7 f - g}" fns=js_op::str_to_number stubs=1 replay=generic timeout=300
+    //@ob name=C07.str_to_number.radix.5 harness=k_c07_s2n_radix_5 props=C07,C09,C10 tier=thorough strength=bounded bound="every string of exactly 5 characters over the alphabet {0 x X b o 1 7 f - g}" fns=js_op::str_to_number stubs=1 replay=generic timeout=300
     //@ desc="str_to_number(s) == ECMAScript StringToNumber(s): surrounding whitespace ignored, \"\" is 0, only `Infinity` spelled that way, 0x/0o/0b literals honoured (unsigned), decimal literals by from_str (assumed contract), anything else non-numeric"
     s2n_harness!(k_c07_s2n_radix_5, 5, ALPHA_RADIX);
 //@END-GENERATED-S2N
@@ -1396,7 +1396,7 @@ pub(crate) mod verif_js_op {
     //@ob name=C08.strict_eq.null_null harness=k_c08_seq_null_null props=C08,C01 strength=complete fns=js_op::strict_eq,js_op::strict_ne stubs=3 timeout=240 replay=generic
     //@ desc="strict_eq(NULL,NULL) (distinct instances) == same primitive type and value; symmetric; strict_ne negation; === implies =="
     pair_harness!(k_c08_seq_null_null, body_strict_eq, K_NULL, K_NULL);
-    //@ob name=C09.rel.null_null harness=k_c09_rel_null_null props=C09,C01 strength=complete fns=js_op::abstract_lt,js_op::abstract_lte,js_op::abstract_gt,js_op::abstract_gte stubs=3 timeout=240 replay=generic
+    //@ob name=C09.rel.null_null harness=k_c09_rel_null_null props=C09 strength=complete fns=js_op::abstract_lt,js_op::abstract_lte,js_op::abstract_gt,js_op::abstract_gte stubs=3 timeout=240 replay=generic
     //@ desc="lt/lte(NULL,NULL) == ES relational comparison on converted operands (NaN => false); gt(b,a)==lt(a,b); gte(b,a)==lte(a,b)"
     pair_harness!(k_c09_rel_null_null, body_rel, K_NULL, K_NULL);
     //@ob name=C07.abstract_eq.null_bool harness=k_c07_eq_null_bool props=C07,C01 strength=complete fns=js_op::abstract_eq,js_op::abstract_ne stubs=3 timeout=240 replay=generic
@@ -1405,7 +1405,7 @@ pub(crate) mod verif_js_op {
     //@ob name=C08.strict_eq.null_bool harness=k_c08_seq_null_bool props=C08,C01 strength=complete fns=js_op::strict_eq,js_op::strict_ne stubs=3 timeout=240 replay=generic
     //@ desc="strict_eq(NULL,BOOL) (distinct instances) == same primitive type and value; symmetric; strict_ne negation; === implies =="
     pair_harness!(k_c08_seq_null_bool, body_strict_eq, K_NULL, K_BOOL);
-    //@ob name=C09.rel.null_bool harness=k_c09_rel_null_bool props=C09,C01 strength=complete fns=js_op::abstract_lt,js_op::abstract_lte,js_op::abstract_gt,js_op::abstract_gte stubs=3 timeout=240 replay=generic
+    //@ob name=C09.rel.null_bool harness=k_c09_rel_null_bool props=C09 strength=complete fns=js_op::abstract_lt,js_op::abstract_lte,js_op::abstract_gt,js_op::abstract_gte stubs=3 timeout=240 replay=generic
     //@ desc="lt/lte(NULL,BOOL) == ES relational comparison on converted operands (NaN => false); gt(b,a)==lt(a,b); gte(b,a)==lte(a,b)"
     pair_harness!(k_c09_rel_null_bool, body_rel, K_NULL, K_BOOL);
     //@ob name=C07.abstract_eq.null_num harness=k_c07_eq_null_num props=C07,C01 strength=complete fns=js_op::abstract_eq,js_op::abstract_ne stubs=3 timeout=240 replay=generic
@@ -1414,7 +1414,7 @@ pub(crate) mod verif_js_op {
     //@ob name=C08.strict_eq.null_num harness=k_c08_seq_null_num props=C08,C01 strength=complete fns=js_op::strict_eq,js_op::strict_ne stubs=3 timeout=240 replay=generic
     //@ desc="strict_eq(NULL,NUM) (distinct instances) == same primitive type and value; symmetric; strict_ne negation; === implies =="
     pair_harness!(k_c08_seq_null_num, body_strict_eq, K_NULL, K_NUM);
-    //@ob name=C09.rel.null_num harness=k_c09_rel_null_num props=C09,C01 strength=complete fns=js_op::abstract_lt,js_op::abstract_lte,js_op::abstract_gt,js_op::abstract_gte stubs=3 timeout=240 replay=generic
+    //@ob name=C09.rel.null_num harness=k_c09_rel_null_num props=C09 strength=complete fns=js_op::abstract_lt,js_op::abstract_lte,js_op::abstract_gt,js_op::abstract_gte stubs=3 timeout=240 replay=generic
     //@ desc="lt/lte(NULL,NUM) == ES relational comparison on converted operands (NaN => false); gt(b,a)==lt(a,b); gte(b,a)==lte(a,b)"
     pair_harness!(k_c09_rel_null_num, body_rel, K_NULL, K_NUM);
     //@ob name=C07.abstract_eq.null_str harness=k_c07_eq_null_str props=C07,C01 strength=complete fns=js_op::abstract_eq,js_op::abstract_ne stubs=3 timeout=240 replay=generic
@@ -1423,7 +1423,7 @@ pub(crate) mod verif_js_op {
     //@ob name=C08.strict_eq.null_str harness=k_c08_seq_null_str props=C08,C01 strength=complete fns=js_op::strict_eq,js_op::strict_ne stubs=3 timeout=240 replay=generic
     //@ desc="strict_eq(NULL,STR) (distinct instances) == same primitive type and value; symmetric; strict_ne negation; === implies =="
     pair_harness!(k_c08_seq_null_str, body_strict_eq, K_NULL, K_STR);
-    //@ob name=C09.rel.null_str harness=k_c09_rel_null_str props=C09,C01 strength=complete fns=js_op::abstract_lt,js_op::abstract_lte,js_op::abstract_gt,js_op::abstract_gte stubs=3 timeout=240 replay=generic
+    //@ob name=C09.rel.null_str harness=k_c09_rel_null_str props=C09 strength=complete fns=js_op::abstract_lt,js_op::abstract_lte,js_op::abstract_gt,js_op::abstract_gte stubs=3 timeout=240 replay=generic
     //@ desc="lt/lte(NULL,STR) == ES relational comparison on converted operands (NaN => false); gt(b,a)==lt(a,b); gte(b,a)==lte(a,b)"
     pair_harness!(k_c09_rel_null_str, body_rel, K_NULL, K_STR);
     //@ob name=C07.abstract_eq.null_arr harness=k_c07_eq_null_arr props=C07,C01 strength=complete fns=js_op::abstract_eq,js_op::abstract_ne stubs=3 timeout=240 replay=generic
@@ -1432,7 +1432,7 @@ pub(crate) mod verif_js_op {
     //@ob name=C08.strict_eq.null_arr harness=k_c08_seq_null_arr props=C08,C01 strength=complete fns=js_op::strict_eq,js_op::strict_ne stubs=3 timeout=240 replay=generic
     //@ desc="strict_eq(NULL,ARR) (distinct instances) == same primitive type and value; symmetric; strict_ne negation; === implies =="
     pair_harness!(k_c08_seq_null_arr, body_strict_eq, K_NULL, K_ARR);
-    //@ob name=C09.rel.null_arr harness=k_c09_rel_null_arr props=C09,C01 strength=complete fns=js_op::abstract_lt,js_op::abstract_lte,js_op::abstract_gt,js_op::abstract_gte stubs=3 timeout=240 replay=generic
+    //@ob name=C09.rel.null_arr harness=k_c09_rel_null_arr props=C09 strength=complete fns=js_op::abstract_lt,js_op::abstract_lte,js_op::abstract_gt,js_op::abstract_gte stubs=3 timeout=240 replay=generic
     //@ desc="lt/lte(NULL,ARR) == ES relational comparison on converted operands (NaN => false); gt(b,a)==lt(a,b); gte(b,a)==lte(a,b)"
     pair_harness!(k_c09_rel_null_arr, body_rel, K_NULL, K_ARR);
     //@ob name=C07.abstract_eq.null_obj harness=k_c07_eq_null_obj props=C07,C01 strength=complete fns=js_op::abstract_eq,js_op::abstract_ne stubs=3 timeout=240 replay=generic
@@ -1441,10 +1441,10 @@ pub(crate) mod verif_js_op {
     //@ob name=C08.strict_eq.null_obj harness=k_c08_seq_null_obj props=C08,C01 strength=complete fns=js_op::strict_eq,js_op::strict_ne stubs=3 timeout=240 replay=generic
     //@ desc="strict_eq(NULL,OBJ) (distinct instances) == same primitive type and value; symmetric; strict_ne negation; === implies =="
     pair_harness!(k_c08_seq_null_obj, body_strict_eq, K_NULL, K_OBJ);
-    //@ob name=C09.rel.null_obj harness=k_c09_rel_null_obj props=C09,C01 strength=complete fns=js_op::abstract_lt,js_op::abstract_lte,js_op::abstract_gt,js_op::abstract_gte stubs=3 timeout=240 replay=generic
+    //@ob name=C09.rel.null_obj harness=k_c09_rel_null_obj props=C09 strength=complete fns=js_op::abstract_lt,js_op::abstract_lte,js_op::abstract_gt,js_op::abstract_gte stubs=3 timeout=240 replay=generic
     //@ desc="lt/lte(NULL,OBJ) == ES relational comparison on converted operands (NaN => false); gt(b,a)==lt(a,b); gte(b,a)==lte(a,b)"
     pair_harness!(k_c09_rel_null_obj, body_rel, K_NULL, K_OBJ);
-    //@ob name=C09.rel.bool_null harness=k_c09_rel_bool_null props=C09,C01 strength=complete fns=js_op::abstract_lt,js_op::abstract_lte,js_op::abstract_gt,js_op::abstract_gte stubs=3 timeout=240 replay=generic
+    //@ob name=C09.rel.bool_null harness=k_c09_rel_bool_null props=C09 strength=complete fns=js_op::abstract_lt,js_op::abstract_lte,js_op::abstract_gt,js_op::abstract_gte stubs=3 timeout=240 replay=generic
     //@ desc="lt/lte(BOOL,NULL) == ES relational comparison on converted operands (NaN => false); gt(b,a)==lt(a,b); gte(b,a)==lte(a,b)"
     pair_harness!(k_c09_rel_bool_null, body_rel, K_BOOL, K_NULL);
     //@ob name=C07.abstract_eq.bool_bool harness=k_c07_eq_bool_bool props=C07,C01 strength=complete fns=js_op::abstract_eq,js_op::abstract_ne stubs=3 timeout=240 replay=generic
@@ -1453,7 +1453,7 @@ pub(crate) mod verif_js_op {
     //@ob name=C08.strict_eq.bool_bool harness=k_c08_seq_bool_bool props=C08,C01 strength=complete fns=js_op::strict_eq,js_op::strict_ne stubs=3 timeout=240 replay=generic
     //@ desc="strict_eq(BOOL,BOOL) (distinct instances) == same primitive type and value; symmetric; strict_ne negation; === implies =="
     pair_harness!(k_c08_seq_bool_bool, body_strict_eq, K_BOOL, K_BOOL);
-    //@ob name=C09.rel.bool_bool harness=k_c09_rel_bool_bool props=C09,C01 strength=complete fns=js_op::abstract_lt,js_op::abstract_lte,js_op::abstract_gt,js_op::abstract_gte stubs=3 timeout=240 replay=generic
+    //@ob name=C09.rel.bool_bool harness=k_c09_rel_bool_bool props=C09 strength=complete fns=js_op::abstract_lt,js_op::abstract_lte,js_op::abstract_gt,js_op::abstract_gte stubs=3 timeout=240 replay=generic
     //@ desc="lt/lte(BOOL,BOOL) == ES relational comparison on converted operands (NaN => false); gt(b,a)==lt(a,b); gte(b,a)==lte(a,b)"
     pair_harness!(k_c09_rel_bool_bool, body_rel, K_BOOL, K_BOOL);
     //@ob name=C07.abstract_eq.bool_num harness=k_c07_eq_bool_num props=C07,C01 strength=complete fns=js_op::abstract_eq,js_op::abstract_ne stubs=3 timeout=240 replay=generic
@@ -1462,7 +1462,7 @@ pub(crate) mod verif_js_op {
     //@ob name=C08.strict_eq.bool_num harness=k_c08_seq_bool_num props=C08,C01 strength=complete fns=js_op::strict_eq,js_op::strict_ne stubs=3 timeout=240 replay=generic
     //@ desc="strict_eq(BOOL,NUM) (distinct instances) == same primitive type and value; symmetric; strict_ne negation; === implies =="
     pair_harness!(k_c08_seq_bool_num, body_strict_eq, K_BOOL, K_NUM);
-    //@ob name=C09.rel.bool_num harness=k_c09_rel_bool_num props=C09,C01 strength=complete fns=js_op::abstract_lt,js_op::abstract_lte,js_op::abstract_gt,js_op::abstract_gte stubs=3 timeout=240 replay=generic
+    //@ob name=C09.rel.bool_num harness=k_c09_rel_bool_num props=C09 strength=complete fns=js_op::abstract_lt,js_op::abstract_lte,js_op::abstract_gt,js_op::abstract_gte stubs=3 timeout=240 replay=generic
     //@ desc="lt/lte(BOOL,NUM) == ES relational comparison on converted operands (NaN => false); gt(b,a)==lt(a,b); gte(b,a)==lte(a,b)"
     pair_harness!(k_c09_rel_bool_num, body_rel, K_BOOL, K_NUM);
     //@ob name=C07.abstract_eq.bool_str harness=k_c07_eq_bool_str props=C07,C01 strength=complete fns=js_op::abstract_eq,js_op::abstract_ne stubs=3 timeout=240 replay=generic
@@ -1471,7 +1471,7 @@ pub(crate) mod verif_js_op {
     //@ob name=C08.strict_eq.bool_str harness=k_c08_seq_bool_str props=C08,C01 strength=complete fns=js_op::strict_eq,js_op::strict_ne stubs=3 timeout=240 replay=generic
     //@ desc="strict_eq(BOOL,STR) (distinct instances) == same primitive type and value; symmetric; strict_ne negation; === implies =="
     pair_harness!(k_c08_seq_bool_str, body_strict_eq, K_BOOL, K_STR);
-    //@ob name=C09.rel.bool_str harness=k_c09_rel_bool_str props=C09,C01 strength=complete fns=js_op::abstract_lt,js_op::abstract_lte,js_op::abstract_gt,js_op::abstract_gte stubs=3 timeout=240 replay=generic
+    //@ob name=C09.rel.bool_str harness=k_c09_rel_bool_str props=C09 strength=complete fns=js_op::abstract_lt,js_op::abstract_lte,js_op::abstract_gt,js_op::abstract_gte stubs=3 timeout=240 replay=generic
     //@ desc="lt/lte(BOOL,STR) == ES relational comparison on converted operands (NaN => false); gt(b,a)==lt(a,b); gte(b,a)==lte(a,b)"
     pair_harness!(k_c09_rel_bool_str, body_rel, K_BOOL, K_STR);
     //@ob name=C07.abstract_eq.bool_arr harness=k_c07_eq_bool_arr props=C07,C01 strength=complete fns=js_op::abstract_eq,js_op::abstract_ne stubs=3 timeout=240 replay=generic
@@ -1480,7 +1480,7 @@ pub(crate) mod verif_js_op {
     //@ob name=C08.strict_eq.bool_arr harness=k_c08_seq_bool_arr props=C08,C01 strength=complete fns=js_op::strict_eq,js_op::strict_ne stubs=3 timeout=240 replay=generic
     //@ desc="strict_eq(BOOL,ARR) (distinct instances) == same primitive type and value; symmetric; strict_ne negation; === implies =="
     pair_harness!(k_c08_seq_bool_arr, body_strict_eq, K_BOOL, K_ARR);
-    //@ob name=C09.rel.bool_arr harness=k_c09_rel_bool_arr props=C09,C01 strength=complete fns=js_op::abstract_lt,js_op::abstract_lte,js_op::abstract_gt,js_op::abstract_gte stubs=3 timeout=240 replay=generic
+    //@ob name=C09.rel.bool_arr harness=k_c09_rel_bool_arr props=C09 strength=complete fns=js_op::abstract_lt,js_op::abstract_lte,js_op::abstract_gt,js_op::abstract_gte stubs=3 timeout=240 replay=generic
     //@ desc="lt/lte(BOOL,ARR) == ES relational comparison on converted operands (NaN => false); gt(b,a)==lt(a,b); gte(b,a)==lte(a,b)"
     pair_harness!(k_c09_rel_bool_arr, body_rel, K_BOOL, K_ARR);
     //@ob name=C07.abstract_eq.bool_obj harness=k_c07_eq_bool_obj props=C07,C01 strength=complete fns=js_op::abstract_eq,js_op::abstract_ne stubs=3 timeout=240 replay=generic
@@ -1489,13 +1489,13 @@ pub(crate) mod verif_js_op {
     //@ob name=C08.strict_eq.bool_obj harness=k_c08_seq_bool_obj props=C08,C01 strength=complete fns=js_op::strict_eq,js_op::strict_ne stubs=3 timeout=240 replay=generic
     //@ desc="strict_eq(BOOL,OBJ) (distinct instances) == same primitive type and value; symmetric; strict_ne negation; === implies =="
     pair_harness!(k_c08_seq_bool_obj, body_strict_eq, K_BOOL, K_OBJ);
-    //@ob name=C09.rel.bool_obj harness=k_c09_rel_bool_obj props=C09,C01 strength=complete fns=js_op::abstract_lt,js_op::abstract_lte,js_op::abstract_gt,js_op::abstract_gte stubs=3 timeout=240 replay=generic
+    //@ob name=C09.rel.bool_obj harness=k_c09_rel_bool_obj props=C09 strength=complete fns=js_op::abstract_lt,js_op::abstract_lte,js_op::abstract_gt,js_op::abstract_gte stubs=3 timeout=240 replay=generic
     //@ desc="lt/lte(BOOL,OBJ) == ES relational comparison on converted operands (NaN => false); gt(b,a)==lt(a,b); gte(b,a)==lte(a,b)"
     pair_harness!(k_c09_rel_bool_obj, body_rel, K_BOOL, K_OBJ);
-    //@ob name=C09.rel.num_null harness=k_c09_rel_num_null props=C09,C01 strength=complete fns=js_op::abstract_lt,js_op::abstract_lte,js_op::abstract_gt,js_op::abstract_gte stubs=3 timeout=240 replay=generic
+    //@ob name=C09.rel.num_null harness=k_c09_rel_num_null props=C09 strength=complete fns=js_op::abstract_lt,js_op::abstract_lte,js_op::abstract_gt,js_op::abstract_gte stubs=3 timeout=240 replay=generic
     //@ desc="lt/lte(NUM,NULL) == ES relational comparison on converted operands (NaN => false); gt(b,a)==lt(a,b); gte(b,a)==lte(a,b)"
     pair_harness!(k_c09_rel_num_null, body_rel, K_NUM, K_NULL);
-    //@ob name=C09.rel.num_bool harness=k_c09_rel_num_bool props=C09,C01 strength=complete fns=js_op::abstract_lt,js_op::abstract_lte,js_op::abstract_gt,js_op::abstract_gte stubs=3 timeout=240 replay=generic
+    //@ob name=C09.rel.num_bool harness=k_c09_rel_num_bool props=C09 strength=complete fns=js_op::abstract_lt,js_op::abstract_lte,js_op::abstract_gt,js_op::abstract_gte stubs=3 timeout=240 replay=generic
     //@ desc="lt/lte(NUM,BOOL) == ES relational comparison on converted operands (NaN => false); gt(b,a)==lt(a,b); gte(b,a)==lte(a,b)"
     pair_harness!(k_c09_rel_num_bool, body_rel, K_NUM, K_BOOL);
     //@ob name=C07.abstract_eq.num_num harness=k_c07_eq_num_num props=C07,C01 strength=complete fns=js_op::abstract_eq,js_op::abstract_ne stubs=3 timeout=240 replay=generic
@@ -1504,7 +1504,7 @@ pub(crate) mod verif_js_op {
     //@ob name=C08.strict_eq.num_num harness=k_c08_seq_num_num props=C08,C01 strength=complete fns=js_op::strict_eq,js_op::strict_ne stubs=3 timeout=240 replay=generic
     //@ desc="strict_eq(NUM,NUM) (distinct instances) == same primitive type and value; symmetric; strict_ne negation; === implies =="
     pair_harness!(k_c08_seq_num_num, body_strict_eq, K_NUM, K_NUM);
-    //@ob name=C09.rel.num_num harness=k_c09_rel_num_num props=C09,C01 strength=complete fns=js_op::abstract_lt,js_op::abstract_lte,js_op::abstract_gt,js_op::abstract_gte stubs=3 timeout=240 replay=generic
+    //@ob name=C09.rel.num_num harness=k_c09_rel_num_num props=C09 strength=complete fns=js_op::abstract_lt,js_op::abstract_lte,js_op::abstract_gt,js_op::abstract_gte stubs=3 timeout=240 replay=generic
     //@ desc="lt/lte(NUM,NUM) == ES relational comparison on converted operands (NaN => false); gt(b,a)==lt(a,b); gte(b,a)==lte(a,b)"
     pair_harness!(k_c09_rel_num_num, body_rel, K_NUM, K_NUM);
     //@ob name=C07.abstract_eq.num_str harness=k_c07_eq_num_str props=C07,C01 strength=complete fns=js_op::abstract_eq,js_op::abstract_ne stubs=3 timeout=240 replay=generic
@@ -1513,7 +1513,7 @@ pub(crate) mod verif_js_op {
     //@ob name=C08.strict_eq.num_str harness=k_c08_seq_num_str props=C08,C01 strength=complete fns=js_op::strict_eq,js_op::strict_ne stubs=3 timeout=240 replay=generic
     //@ desc="strict_eq(NUM,STR) (distinct instances) == same primitive type and value; symmetric; strict_ne negation; === implies =="
     pair_harness!(k_c08_seq_num_str, body_strict_eq, K_NUM, K_STR);
-    //@ob name=C09.rel.num_str harness=k_c09_rel_num_str props=C09,C01 strength=complete fns=js_op::abstract_lt,js_op::abstract_lte,js_op::abstract_gt,js_op::abstract_gte stubs=3 timeout=240 replay=generic
+    //@ob name=C09.rel.num_str harness=k_c09_rel_num_str props=C09 strength=complete fns=js_op::abstract_lt,js_op::abstract_lte,js_op::abstract_gt,js_op::abstract_gte stubs=3 timeout=240 replay=generic
     //@ desc="lt/lte(NUM,STR) == ES relational comparison on converted operands (NaN => false); gt(b,a)==lt(a,b); gte(b,a)==lte(a,b)"
     pair_harness!(k_c09_rel_num_str, body_rel, K_NUM, K_STR);
     //@ob name=C07.abstract_eq.num_arr harness=k_c07_eq_num_arr props=C07,C01 strength=complete fns=js_op::abstract_eq,js_op::abstract_ne stubs=3 timeout=240 replay=generic
@@ -1522,7 +1522,7 @@ pub(crate) mod verif_js_op {
     //@ob name=C08.strict_eq.num_arr harness=k_c08_seq_num_arr props=C08,C01 strength=complete fns=js_op::strict_eq,js_op::strict_ne stubs=3 timeout=240 replay=generic
     //@ desc="strict_eq(NUM,ARR) (distinct instances) == same primitive type and value; symmetric; strict_ne negation; === implies =="
     pair_harness!(k_c08_seq_num_arr, body_strict_eq, K_NUM, K_ARR);
-    //@ob name=C09.rel.num_arr harness=k_c09_rel_num_arr props=C09,C01 strength=complete fns=js_op::abstract_lt,js_op::abstract_lte,js_op::abstract_gt,js_op::abstract_gte stubs=3 timeout=240 replay=generic
+    //@ob name=C09.rel.num_arr harness=k_c09_rel_num_arr props=C09 strength=complete fns=js_op::abstract_lt,js_op::abstract_lte,js_op::abstract_gt,js_op::abstract_gte stubs=3 timeout=240 replay=generic
     //@ desc="lt/lte(NUM,ARR) == ES relational comparison on converted operands (NaN => false); gt(b,a)==lt(a,b); gte(b,a)==lte(a,b)"
     pair_harness!(k_c09_rel_num_arr, body_rel, K_NUM, K_ARR);
     //@ob name=C07.abstract_eq.num_obj harness=k_c07_eq_num_obj props=C07,C01 strength=complete fns=js_op::abstract_eq,js_op::abstract_ne stubs=3 timeout=240 replay=generic
@@ -1531,16 +1531,16 @@ pub(crate) mod verif_js_op {
     //@ob name=C08.strict_eq.num_obj harness=k_c08_seq_num_obj props=C08,C01 strength=complete fns=js_op::strict_eq,js_op::strict_ne stubs=3 timeout=240 replay=generic
     //@ desc="strict_eq(NUM,OBJ) (distinct instances) == same primitive type and value; symmetric; strict_ne negation; === implies =="
     pair_harness!(k_c08_seq_num_obj, body_strict_eq, K_NUM, K_OBJ);
-    //@ob name=C09.rel.num_obj harness=k_c09_rel_num_obj props=C09,C01 strength=complete fns=js_op::abstract_lt,js_op::abstract_lte,js_op::abstract_gt,js_op::abstract_gte stubs=3 timeout=240 replay=generic
+    //@ob name=C09.rel.num_obj harness=k_c09_rel_num_obj props=C09 strength=complete fns=js_op::abstract_lt,js_op::abstract_lte,js_op::abstract_gt,js_op::abstract_gte stubs=3 timeout=240 replay=generic
     //@ desc="lt/lte(NUM,OBJ) == ES relational comparison on converted operands (NaN => false); gt(b,a)==lt(a,b); gte(b,a)==lte(a,b)"
     pair_harness!(k_c09_rel_num_obj, body_rel, K_NUM, K_OBJ);
-    //@ob name=C09.rel.str_null harness=k_c09_rel_str_null props=C09,C01 strength=complete fns=js_op::abstract_lt,js_op::abstract_lte,js_op::abstract_gt,js_op::abstract_gte stubs=3 timeout=240 replay=generic
+    //@ob name=C09.rel.str_null harness=k_c09_rel_str_null props=C09 strength=complete fns=js_op::abstract_lt,js_op::abstract_lte,js_op::abstract_gt,js_op::abstract_gte stubs=3 timeout=240 replay=generic
     //@ desc="lt/lte(STR,NULL) == ES relational comparison on converted operands (NaN => false); gt(b,a)==lt(a,b); gte(b,a)==lte(a,b)"
     pair_harness!(k_c09_rel_str_null, body_rel, K_STR, K_NULL);
-    //@ob name=C09.rel.str_bool harness=k_c09_rel_str_bool props=C09,C01 strength=complete fns=js_op::abstract_lt,js_op::abstract_lte,js_op::abstract_gt,js_op::abstract_gte stubs=3 timeout=240 replay=generic
+    //@ob name=C09.rel.str_bool harness=k_c09_rel_str_bool props=C09 strength=complete fns=js_op::abstract_lt,js_op::abstract_lte,js_op::abstract_gt,js_op::abstract_gte stubs=3 timeout=240 replay=generic
     //@ desc="lt/lte(STR,BOOL) == ES relational comparison on converted operands (NaN => false); gt(b,a)==lt(a,b); gte(b,a)==lte(a,b)"
     pair_harness!(k_c09_rel_str_bool, body_rel, K_STR, K_BOOL);
-    //@ob name=C09.rel.str_num harness=k_c09_rel_str_num props=C09,C01 strength=complete fns=js_op::abstract_lt,js_op::abstract_lte,js_op::abstract_gt,js_op::abstract_gte stubs=3 timeout=240 replay=generic
+    //@ob name=C09.rel.str_num harness=k_c09_rel_str_num props=C09 strength=complete fns=js_op::abstract_lt,js_op::abstract_lte,js_op::abstract_gt,js_op::abstract_gte stubs=3 timeout=240 replay=generic
     //@ desc="lt/lte(STR,NUM) == ES relational comparison on converted operands (NaN => false); gt(b,a)==lt(a,b); gte(b,a)==lte(a,b)"
     pair_harness!(k_c09_rel_str_num, body_rel, K_STR, K_NUM);
     //@ob name=C07.abstract_eq.str_str harness=k_c07_eq_str_str props=C07,C01 strength=bounded bound="string / container-string-form contents are 1-character labels" fns=js_op::abstract_eq,js_op::abstract_ne stubs=3 timeout=240 replay=generic
@@ -1549,7 +1549,7 @@ pub(crate) mod verif_js_op {
     //@ob name=C08.strict_eq.str_str harness=k_c08_seq_str_str props=C08,C01 strength=bounded bound="string / container-string-form contents are 1-character labels" fns=js_op::strict_eq,js_op::strict_ne stubs=3 timeout=240 replay=generic
     //@ desc="strict_eq(STR,STR) (distinct instances) == same primitive type and value; symmetric; strict_ne negation; === implies =="
     pair_harness!(k_c08_seq_str_str, body_strict_eq, K_STR, K_STR);
-    //@ob name=C09.rel.str_str harness=k_c09_rel_str_str props=C09,C01 strength=bounded bound="string / container-string-form contents are 1-character labels" fns=js_op::abstract_lt,js_op::abstract_lte,js_op::abstract_gt,js_op::abstract_gte stubs=3 timeout=240 replay=generic
+    //@ob name=C09.rel.str_str harness=k_c09_rel_str_str props=C09 strength=bounded bound="string / container-string-form contents are 1-character labels" fns=js_op::abstract_lt,js_op::abstract_lte,js_op::abstract_gt,js_op::abstract_gte stubs=3 timeout=240 replay=generic
     //@ desc="lt/lte(STR,STR) == ES relational comparison on converted operands (NaN => false); gt(b,a)==lt(a,b); gte(b,a)==lte(a,b)"
     pair_harness!(k_c09_rel_str_str, body_rel, K_STR, K_STR);
     //@ob name=C07.abstract_eq.str_arr harness=k_c07_eq_str_arr props=C07,C01 strength=bounded bound="string / container-string-form contents are 1-character labels" fns=js_op::abstract_eq,js_op::abstract_ne stubs=3 timeout=240 replay=generic
@@ -1558,7 +1558,7 @@ pub(crate) mod verif_js_op {
     //@ob name=C08.strict_eq.str_arr harness=k_c08_seq_str_arr props=C08,C01 strength=bounded bound="string / container-string-form contents are 1-character labels" fns=js_op::strict_eq,js_op::strict_ne stubs=3 timeout=240 replay=generic
     //@ desc="strict_eq(STR,ARR) (distinct instances) == same primitive type and value; symmetric; strict_ne negation; === implies =="
     pair_harness!(k_c08_seq_str_arr, body_strict_eq, K_STR, K_ARR);
-    //@ob name=C09.rel.str_arr harness=k_c09_rel_str_arr props=C09,C01 strength=bounded bound="string / container-string-form contents are 1-character labels" fns=js_op::abstract_lt,js_op::abstract_lte,js_op::abstract_gt,js_op::abstract_gte stubs=3 timeout=240 replay=generic
+    //@ob name=C09.rel.str_arr harness=k_c09_rel_str_arr props=C09 strength=bounded bound="string / container-string-form contents are 1-character labels" fns=js_op::abstract_lt,js_op::abstract_lte,js_op::abstract_gt,js_op::abstract_gte stubs=3 timeout=240 replay=generic
     //@ desc="lt/lte(STR,ARR) == ES relational comparison on converted operands (NaN => false); gt(b,a)==lt(a,b); gte(b,a)==lte(a,b)"
     pair_harness!(k_c09_rel_str_arr, body_rel, K_STR, K_ARR);
     //@ob name=C07.abstract_eq.str_obj harness=k_c07_eq_str_obj props=C07,C01 strength=bounded bound="string / container-string-form contents are 1-character labels" fns=js_op::abstract_eq,js_op::abstract_ne stubs=3 timeout=240 replay=generic
@@ -1567,19 +1567,19 @@ pub(crate) mod verif_js_op {
     //@ob name=C08.strict_eq.str_obj harness=k_c08_seq_str_obj props=C08,C01 strength=bounded bound="string / container-string-form contents are 1-character labels" fns=js_op::strict_eq,js_op::strict_ne stubs=3 timeout=240 replay=generic
     //@ desc="strict_eq(STR,OBJ) (distinct instances) == same primitive type and value; symmetric; strict_ne negation; === implies =="
     pair_harness!(k_c08_seq_str_obj, body_strict_eq, K_STR, K_OBJ);
-    //@ob name=C09.rel.str_obj harness=k_c09_rel_str_obj props=C09,C01 strength=bounded bound="string / container-string-form contents are 1-character labels" fns=js_op::abstract_lt,js_op::abstract_lte,js_op::abstract_gt,js_op::abstract_gte stubs=3 timeout=240 replay=generic
+    //@ob name=C09.rel.str_obj harness=k_c09_rel_str_obj props=C09 strength=bounded bound="string / container-string-form contents are 1-character labels" fns=js_op::abstract_lt,js_op::abstract_lte,js_op::abstract_gt,js_op::abstract_gte stubs=3 timeout=240 replay=generic
     //@ desc="lt/lte(STR,OBJ) == ES relational comparison on converted operands (NaN => false); gt(b,a)==lt(a,b); gte(b,a)==lte(a,b)"
     pair_harness!(k_c09_rel_str_obj, body_rel, K_STR, K_OBJ);
-    //@ob name=C09.rel.arr_null harness=k_c09_rel_arr_null props=C09,C01 strength=complete fns=js_op::abstract_lt,js_op::abstract_lte,js_op::abstract_gt,js_op::abstract_gte stubs=3 timeout=240 replay=generic
+    //@ob name=C09.rel.arr_null harness=k_c09_rel_arr_null props=C09 strength=complete fns=js_op::abstract_lt,js_op::abstract_lte,js_op::abstract_gt,js_op::abstract_gte stubs=3 timeout=240 replay=generic
     //@ desc="lt/lte(ARR,NULL) == ES relational comparison on converted operands (NaN => false); gt(b,a)==lt(a,b); gte(b,a)==lte(a,b)"
     pair_harness!(k_c09_rel_arr_null, body_rel, K_ARR, K_NULL);
-    //@ob name=C09.rel.arr_bool harness=k_c09_rel_arr_bool props=C09,C01 strength=complete fns=js_op::abstract_lt,js_op::abstract_lte,js_op::abstract_gt,js_op::abstract_gte stubs=3 timeout=240 replay=generic
+    //@ob name=C09.rel.arr_bool harness=k_c09_rel_arr_bool props=C09 strength=complete fns=js_op::abstract_lt,js_op::abstract_lte,js_op::abstract_gt,js_op::abstract_gte stubs=3 timeout=240 replay=generic
     //@ desc="lt/lte(ARR,BOOL) == ES relational comparison on converted operands (NaN => false); gt(b,a)==lt(a,b); gte(b,a)==lte(a,b)"
     pair_harness!(k_c09_rel_arr_bool, body_rel, K_ARR, K_BOOL);
-    //@ob name=C09.rel.arr_num harness=k_c09_rel_arr_num props=C09,C01 strength=complete fns=js_op::abstract_lt,js_op::abstract_lte,js_op::abstract_gt,js_op::abstract_gte stubs=3 timeout=240 replay=generic
+    //@ob name=C09.rel.arr_num harness=k_c09_rel_arr_num props=C09 strength=complete fns=js_op::abstract_lt,js_op::abstract_lte,js_op::abstract_gt,js_op::abstract_gte stubs=3 timeout=240 replay=generic
     //@ desc="lt/lte(ARR,NUM) == ES relational comparison on converted operands (NaN => false); gt(b,a)==lt(a,b); gte(b,a)==lte(a,b)"
     pair_harness!(k_c09_rel_arr_num, body_rel, K_ARR, K_NUM);
-    //@ob name=C09.rel.arr_str harness=k_c09_rel_arr_str props=C09,C01 strength=bounded bound="string / container-string-form contents are 1-character labels" fns=js_op::abstract_lt,js_op::abstract_lte,js_op::abstract_gt,js_op::abstract_gte stubs=3 timeout=240 replay=generic
+    //@ob name=C09.rel.arr_str harness=k_c09_rel_arr_str props=C09 strength=bounded bound="string / container-string-form contents are 1-character labels" fns=js_op::abstract_lt,js_op::abstract_lte,js_op::abstract_gt,js_op::abstract_gte stubs=3 timeout=240 replay=generic
     //@ desc="lt/lte(ARR,STR) == ES relational comparison on converted operands (NaN => false); gt(b,a)==lt(a,b); gte(b,a)==lte(a,b)"
     pair_harness!(k_c09_rel_arr_str, body_rel, K_ARR, K_STR);
     //@ob name=C07.abstract_eq.arr_arr harness=k_c07_eq_arr_arr props=C07,C01 strength=bounded bound="string / container-string-form contents are 1-character labels" fns=js_op::abstract_eq,js_op::abstract_ne stubs=3 timeout=240 replay=generic
@@ -1588,7 +1588,7 @@ pub(crate) mod verif_js_op {
     //@ob name=C08.strict_eq.arr_arr harness=k_c08_seq_arr_arr props=C08,C01 strength=bounded bound="string / container-string-form contents are 1-character labels" fns=js_op::strict_eq,js_op::strict_ne stubs=3 timeout=240 replay=generic
     //@ desc="strict_eq(ARR,ARR) (distinct instances) == same primitive type and value; symmetric; strict_ne negation; === implies =="
     pair_harness!(k_c08_seq_arr_arr, body_strict_eq, K_ARR, K_ARR);
-    //@ob name=C09.rel.arr_arr harness=k_c09_rel_arr_arr props=C09,C01 strength=bounded bound="string / container-string-form contents are 1-character labels" fns=js_op::abstract_lt,js_op::abstract_lte,js_op::abstract_gt,js_op::abstract_gte stubs=3 timeout=240 replay=generic
+    //@ob name=C09.rel.arr_arr harness=k_c09_rel_arr_arr props=C09 strength=bounded bound="string / container-string-form contents are 1-character labels" fns=js_op::abstract_lt,js_op::abstract_lte,js_op::abstract_gt,js_op::abstract_gte stubs=3 timeout=240 replay=generic
     //@ desc="lt/lte(ARR,ARR) == ES relational comparison on converted operands (NaN => false); gt(b,a)==lt(a,b); gte(b,a)==lte(a,b)"
     pair_harness!(k_c09_rel_arr_arr, body_rel, K_ARR, K_ARR);
     //@ob name=C07.abstract_eq.arr_obj harness=k_c07_eq_arr_obj props=C07,C01 strength=bounded bound="string / container-string-form contents are 1-character labels" fns=js_op::abstract_eq,js_op::abstract_ne stubs=3 timeout=240 replay=generic
@@ -1597,22 +1597,22 @@ pub(crate) mod verif_js_op {
     //@ob name=C08.strict_eq.arr_obj harness=k_c08_seq_arr_obj props=C08,C01 strength=bounded bound="string / container-string-form contents are 1-character labels" fns=js_op::strict_eq,js_op::strict_ne stubs=3 timeout=240 replay=generic
     //@ desc="strict_eq(ARR,OBJ) (distinct instances) == same primitive type and value; symmetric; strict_ne negation; === implies =="
     pair_harness!(k_c08_seq_arr_obj, body_strict_eq, K_ARR, K_OBJ);
-    //@ob name=C09.rel.arr_obj harness=k_c09_rel_arr_obj props=C09,C01 strength=bounded bound="string / container-string-form contents are 1-character labels" fns=js_op::abstract_lt,js_op::abstract_lte,js_op::abstract_gt,js_op::abstract_gte stubs=3 timeout=240 replay=generic
+    //@ob name=C09.rel.arr_obj harness=k_c09_rel_arr_obj props=C09 strength=bounded bound="string / container-string-form contents are 1-character labels" fns=js_op::abstract_lt,js_op::abstract_lte,js_op::abstract_gt,js_op::abstract_gte stubs=3 timeout=240 replay=generic
     //@ desc="lt/lte(ARR,OBJ) == ES relational comparison on converted operands (NaN => false); gt(b,a)==lt(a,b); gte(b,a)==lte(a,b)"
     pair_harness!(k_c09_rel_arr_obj, body_rel, K_ARR, K_OBJ);
-    //@ob name=C09.rel.obj_null harness=k_c09_rel_obj_null props=C09,C01 strength=complete fns=js_op::abstract_lt,js_op::abstract_lte,js_op::abstract_gt,js_op::abstract_gte stubs=3 timeout=240 replay=generic
+    //@ob name=C09.rel.obj_null harness=k_c09_rel_obj_null props=C09 strength=complete fns=js_op::abstract_lt,js_op::abstract_lte,js_op::abstract_gt,js_op::abstract_gte stubs=3 timeout=240 replay=generic
     //@ desc="lt/lte(OBJ,NULL) == ES relational comparison on converted operands (NaN => false); gt(b,a)==lt(a,b); gte(b,a)==lte(a,b)"
     pair_harness!(k_c09_rel_obj_null, body_rel, K_OBJ, K_NULL);
-    //@ob name=C09.rel.obj_bool harness=k_c09_rel_obj_bool props=C09,C01 strength=complete fns=js_op::abstract_lt,js_op::abstract_lte,js_op::abstract_gt,js_op::abstract_gte stubs=3 timeout=240 replay=generic
+    //@ob name=C09.rel.obj_bool harness=k_c09_rel_obj_bool props=C09 strength=complete fns=js_op::abstract_lt,js_op::abstract_lte,js_op::abstract_gt,js_op::abstract_gte stubs=3 timeout=240 replay=generic
     //@ desc="lt/lte(OBJ,BOOL) == ES relational comparison on converted operands (NaN => false); gt(b,a)==lt(a,b); gte(b,a)==lte(a,b)"
     pair_harness!(k_c09_rel_obj_bool, body_rel, K_OBJ, K_BOOL);
-    //@ob name=C09.rel.obj_num harness=k_c09_rel_obj_num props=C09,C01 strength=complete fns=js_op::abstract_lt,js_op::abstract_lte,js_op::abstract_gt,js_op::abstract_gte stubs=3 timeout=240 replay=generic
+    //@ob name=C09.rel.obj_num harness=k_c09_rel_obj_num props=C09 strength=complete fns=js_op::abstract_lt,js_op::abstract_lte,js_op::abstract_gt,js_op::abstract_gte stubs=3 timeout=240 replay=generic
     //@ desc="lt/lte(OBJ,NUM) == ES relational comparison on converted operands (NaN => false); gt(b,a)==lt(a,b); gte(b,a)==lte(a,b)"
     pair_harness!(k_c09_rel_obj_num, body_rel, K_OBJ, K_NUM);
-    //@ob name=C09.rel.obj_str harness=k_c09_rel_obj_str props=C09,C01 strength=bounded bound="string / container-string-form contents are 1-character labels" fns=js_op::abstract_lt,js_op::abstract_lte,js_op::abstract_gt,js_op::abstract_gte stubs=3 timeout=240 replay=generic
+    //@ob name=C09.rel.obj_str harness=k_c09_rel_obj_str props=C09 strength=bounded bound="string / container-string-form contents are 1-character labels" fns=js_op::abstract_lt,js_op::abstract_lte,js_op::abstract_gt,js_op::abstract_gte stubs=3 timeout=240 replay=generic
     //@ desc="lt/lte(OBJ,STR) == ES relational comparison on converted operands (NaN => false); gt(b,a)==lt(a,b); gte(b,a)==lte(a,b)"
     pair_harness!(k_c09_rel_obj_str, body_rel, K_OBJ, K_STR);
-    //@ob name=C09.rel.obj_arr harness=k_c09_rel_obj_arr props=C09,C01 strength=bounded bound="string / container-string-form contents are 1-character labels" fns=js_op::abstract_lt,js_op::abstract_lte,js_op::abstract_gt,js_op::abstract_gte stubs=3 timeout=240 replay=generic
+    //@ob name=C09.rel.obj_arr harness=k_c09_rel_obj_arr props=C09 strength=bounded bound="string / container-string-form contents are 1-character labels" fns=js_op::abstract_lt,js_op::abstract_lte,js_op::abstract_gt,js_op::abstract_gte stubs=3 timeout=240 replay=generic
     //@ desc="lt/lte(OBJ,ARR) == ES relational comparison on converted operands (NaN => false); gt(b,a)==lt(a,b); gte(b,a)==lte(a,b)"
     pair_harness!(k_c09_rel_obj_arr, body_rel, K_OBJ, K_ARR);
     //@ob name=C07.abstract_eq.obj_obj harness=k_c07_eq_obj_obj props=C07,C01 strength=bounded bound="string / container-string-form contents are 1-character labels" fns=js_op::abstract_eq,js_op::abstract_ne stubs=3 timeout=240 replay=generic
@@ -1621,7 +1621,7 @@ pub(crate) mod verif_js_op {
     //@ob name=C08.strict_eq.obj_obj harness=k_c08_seq_obj_obj props=C08,C01 strength=bounded bound="string / container-string-form contents are 1-character labels" fns=js_op::strict_eq,js_op::strict_ne stubs=3 timeout=240 replay=generic
     //@ desc="strict_eq(OBJ,OBJ) (distinct instances) == same primitive type and value; symmetric; strict_ne negation; === implies =="
     pair_harness!(k_c08_seq_obj_obj, body_strict_eq, K_OBJ, K_OBJ);
-    //@ob name=C09.rel.obj_obj harness=k_c09_rel_obj_obj props=C09,C01 strength=bounded bound="string / container-string-form contents are 1-character labels" fns=js_op::abstract_lt,js_op::abstract_lte,js_op::abstract_gt,js_op::abstract_gte stubs=3 timeout=240 replay=generic
+    //@ob name=C09.rel.obj_obj harness=k_c09_rel_obj_obj props=C09 strength=bounded bound="string / container-string-form contents are 1-character labels" fns=js_op::abstract_lt,js_op::abstract_lte,js_op::abstract_gt,js_op::abstract_gte stubs=3 timeout=240 replay=generic
     //@ desc="lt/lte(OBJ,OBJ) == ES relational comparison on converted operands (NaN => false); gt(b,a)==lt(a,b); gte(b,a)==lte(a,b)"
     pair_harness!(k_c09_rel_obj_obj, body_rel, K_OBJ, K_OBJ);
     //@END-GENERATED-PAIRS
